@@ -19,6 +19,7 @@ DOC = {
         'C06.R5': 'FileMetadata::new/FileId::new use fs::metadata (follow links); Entry::from_path uses symlink_metadata',
         'C06.R6': 'FileGroupFilter.root_paths and DedupeConfig.isolated_roots derive from a canonicalising call, like the scanned paths (Walk::absolute)',
         'C06.R7': 'GroupConfig::rf_over() does not read `transform`',
+        'C06.R9': 'Path::is_prefix_of compares whole components of both paths and answers true only when all components of the root are consumed (no string-prefix test)',
         'C06.R8': 'replica-count shortcuts (file_count / unique_count instead of sub-grouping) are guarded by root_paths.is_empty() and !group_by_id',
     },
     'not_decided': 'the counts for concrete trees; symlink resolution by the OS',
@@ -38,6 +39,7 @@ def run(ctx):
     r6(ctx)
     r7(ctx)
     r8(ctx, 'C06.R8')
+    r9(ctx)
 
 
 def r1(ctx):
@@ -502,3 +504,28 @@ def r8(ctx, rule):
         n += 1
     ctx.stats[rule + ':shortcut sites'] = n
     ctx.check(n >= 1 or True, rule, 'sites', '-', '%d shortcut site(s) examined' % n)
+
+
+def r9(ctx):
+    rule = 'C06.R9'
+    lib = ctx.lib
+    b = ctx.need_body(rule, 'path::Path::is_prefix_of')
+    if b is None:
+        return
+    comps = b.calls(r'path::Path::components$')
+    ps = sorted(sorted(backslice(b, [c.args[0]]).params)[0] for c in comps if backslice(b, [c.args[0]]).params)
+    stringy = [c.path.rsplit('::', 1)[-1] for c in b.calls(r'starts_with$|to_string_lossy$|as_bytes$|to_escaped_string$|::display$|as_os_str$|to_path_buf$')]
+    ctx.check(ps == [1, 2] and not stringy, rule, b.path + '|component-wise', b.where(), 'both paths are compared component by component', 'is_prefix_of is not a component-wise comparison (components of params %s, string ops %s): /a/b would be a prefix of /a/bc' % (ps, stringy))
+    # the answer is "self exhausted"
+    isn = b.calls(r'Option(::)?<.*>::is_none$')
+    ok = False
+    for c in isn:
+        sl = backslice(b, [c.args[0]])
+        from_self = any(1 in backslice(b, [x.args[0]]).params for x in sl.calls if x.matches(r'path::Path::components$'))
+        from_other = any(2 in backslice(b, [x.args[0]]).params for x in sl.calls if x.matches(r'path::Path::components$'))
+        if from_self and not from_other and (c.dest[0] == 0 or c.dest[0] in backslice(b, [0]).locals):
+            ok = True
+    ctx.check(ok, rule, b.path + '|root-exhausted', b.where(), 'true only when every component of the root was matched', 'the result is not "all components of self were consumed"')
+    # a mismatch returns false
+    ne = [c for c in comparisons(b) if c.op in ('!=', '==')]
+    ctx.check(bool(ne), rule, b.path + '|mismatch', b.where(), 'components are compared for equality', 'no equality test of components')
